@@ -161,17 +161,10 @@ def known (inTx : Bool) (op : Op) (now : Int) (pre : DB) : List String :=
       (match liveListLen pre now k with
        | some n => if n > 0 && rangeWindowDeviates n a b false then ["D01"] else []
        | none => [])
-    | .listInsertAfter k p _ | .listInsertBefore k p _ =>
-      (match pre.liveKeyT k TList now with
-       | none => []
-       | some r =>
-         let rows := Model.listRows pre r.id
-         if rows.isEmpty then ["D21"]
-         else if !rows.any (fun x => x.elem == p) then (if inTx then ["D04"] else [])
-         else
-           (match (Model.tx true op now pre).out with
-            | .error .sqlUnique => ["D03"]
-            | _ => []))
+    | .listInsertAfter .. | .listInsertBefore .. =>
+      (match (Model.tx true op now pre).out with
+       | .error .sqlUnique => ["D03"]
+       | _ => [])
     | .keyLen => if pre.keys.any (fun r => !r.live now) then ["D06"] else []
     | .setInter ks | .setInterStore _ ks | .zInter ks _ | .zInterStore _ ks _ =>
       (if !distinct ks then ["D07"] else []) ++
